@@ -143,6 +143,7 @@ def check(ctx: Ctx) -> None:
     from ..idioms import check_input_immutability, public_api
     check_input_immutability(ctx, 'C18.f', public_api(ctx.model, [RS, ZC, SRS, DMRS], constructors=True), floor=8)
     _check_inputs_untouched(ctx)
+    _check_ls_identity(ctx)
     from ..idioms import check_flag_tests_agree
     check_flag_tests_agree(ctx, 'C18.g', [RS, ZC, SRS, DMRS, 'pyphysim/reference_signals/channel_estimation.py'], floor=1)
     _check_extension(ctx)
@@ -248,6 +249,40 @@ def _check_extension(ctx: Ctx) -> None:
         if not ok:
             ctx.violation('C18.e', 'get_extended_ZF', 'branch %s builds a sequence of length `%s` (prefix from index 0: %s), not a cyclic '
                           'extension of length `%s`' % (name, total.pretty(), from0_all, want.pretty()), fn.path, fn.lineno, operand=name)
+
+
+def _check_ls_identity(ctx: Ctx) -> None:
+    """C18.h: the least-squares pilot estimator returns the channel for every full-rank pilot matrix (matrix terms, every path)."""
+    from .. import matterms as X
+    M = ctx.model
+    ctx.rule('C18.h', 'compute_ls_estimation(H s, s) = H on EVERY path of its two-dimensional case (matrix terms: Y_p = H s with s s^H '
+                      'invertible; data-dependent tests are followed both ways, so a shortcut for a special shape must return H too)', floor=1)
+    fn = M.func('pyphysim/channel_estimation/estimators.py', 'compute_ls_estimation')
+    cx = X.Ctx()
+    H, s_ = X.MT.sym('H'), X.MT.sym('s')
+    paths = X.explore_paths(M, fn, [X.Val('mat', X.mul(H, s_, cx)), X.Val('mat', s_)], cx)
+    if not paths:
+        ctx.error('C18.h: no path of compute_ls_estimation could be evaluated (cannot tell)')
+    for dec, tests, v in paths:
+        construct = 'compute_ls_estimation:path[%s]' % ','.join('%s=%s' % (t[:30], d) for t, d in zip(tests, dec))
+        ctx.instance('C18.h', construct)
+        if isinstance(v, Exception):
+            ctx.error('C18.h: a path of compute_ls_estimation (%s) is not a matrix expression the term engine understands (%s): cannot tell'
+                      % (construct, v))
+        if v.kind != 'mat':
+            ctx.error('C18.h: a path of compute_ls_estimation returns a %s, not a matrix (cannot tell)' % v.kind)
+        res = X.proves(v.v, H, cx)
+        ok = bool(res[0]) if isinstance(res, tuple) else bool(res)
+        ctx.obligation('C18.h', construct, ok, {'returned': v.v.pretty()[:120], 'tests_decided': list(zip(tests, dec))})
+        if not ok and 'elem[' in v.v.pretty():
+            # single elements stand for the whole matrix only when the path pins the matrix to 1 x 1
+            joined = ' '.join(t.replace(' ', '') for t, d in zip(tests, dec) if d)
+            if ('shape[0]==1' in joined and 'shape[1]==1' in joined) or 'size==1' in joined or 'shape==(1,1)' in joined:
+                ctx.error('C18.h: a path of compute_ls_estimation for 1 x 1 pilots works on single elements (%s): cannot tell' % v.v.pretty()[:80])
+        if not ok:
+            ctx.violation('C18.h', 'compute_ls_estimation', 'on the path where %s the estimator returns `%s` for the noise-free observation H s, which '
+                          'is not H for a general pilot matrix' % (' and '.join('`%s` is %s' % (t, d) for t, d in zip(tests, dec)) or 'no test is met',
+                                                                    v.v.pretty()[:90]), fn.path, fn.lineno, operand='ls-identity')
 
 
 def _check_inputs_untouched(ctx: Ctx) -> None:
